@@ -84,6 +84,25 @@ func (r *ContentReader) parseComments() {
 		return
 	}
 
+	if r.skipNext && !(r.inBegin && hasCommentType(lineComments, comments.IgnoreEndType)) {
+		// This line was excluded by an earlier ignore/next-line or ignore/begin comment,
+		// nothing on it, including any pint comment, can have any effect.
+		keepFrom := len(r.buf)
+		if r.inBegin && hasCommentType(lineComments, comments.IgnoreBeginType) {
+			// A nested ignore/begin comment is harmless, keep it visible.
+			keepFrom = lineComments[0].Offset
+		}
+		for i := range r.buf {
+			if r.buf[i] != '\n' && i < keepFrom {
+				r.buf[i] = ' '
+			}
+		}
+		if r.autoReset {
+			r.skipNext = false
+		}
+		return
+	}
+
 	var found bool
 	var skip skipMode
 	for _, comment := range lineComments {
@@ -182,4 +201,13 @@ func (r *ContentReader) emptyCurrentLine(comments []comments.Comment) {
 			r.buf[i] = ' '
 		}
 	}
+}
+
+func hasCommentType(src []comments.Comment, typ comments.Type) bool {
+	for _, c := range src {
+		if c.Type == typ {
+			return true
+		}
+	}
+	return false
 }
